@@ -69,3 +69,26 @@ Definition m_apply_h (norb : nat) (es : list hentry) (v : list (N * N * gz)) (ba
   m_apply norb (denote_all norb es) v basis.
 Definition m_matel_h (norb : nat) (es : list hentry) (x y : list (N * N * gz)) : gz :=
   m_matel norb (denote_all norb es) x y.
+
+(* C08: arithmetic histories over a pool of wavefunctions *)
+From FQE Require Import Arith.
+Inductive hop8 :=
+| HAdd (i j k : nat) | HSub (i j k : nat) | HAxpy (i : nat) (a : gz) (j : nat)
+| HScale (i : nat) (a : gz) | HSet (i : nat) (a b : N) (c : gz)
+| HCopy (i k : nat) | HEmpty (i k : nat)
+| HDot (i j : nat) | HVdot (i j : nat) | HNorm2 (i : nat) | HGet (i : nat) (a b : N)
+| HMax (i : nat) (basis : list (N * N)).
+Definition aop_of (norb : nat) (h : hop8) : aop :=
+  match h with
+  | HAdd i j k => OAdd i j k | HSub i j k => OSub i j k | HAxpy i a j => OAxpy i a j
+  | HScale i a => OScale i a | HSet i a b c => OSet i (det_of norb a b) c
+  | HCopy i k => OCopy i k | HEmpty i k => OEmpty i k
+  | HDot i j => ODot i j | HVdot i j => OVdot i j | HNorm2 i => ONorm2 i
+  | HGet i a b => OGet i (det_of norb a b)
+  | HMax i basis => OMax i (map (fun ab => det_of norb (fst ab) (snd ab)) basis)
+  end.
+(* returns the observations and, for each pool slot, its coefficients on `basis` *)
+Definition m_hist (norb : nat) (p : list (list (N * N * gz))) (ops : list hop8) (basis : list (N * N))
+  : list (option gz) * list (list gz) :=
+  let '(p', obs) := run (map (vec_of norb) p) (map (aop_of norb) ops) in
+  (obs, map (fun v => map (fun ab => gco v (det_of norb (fst ab) (snd ab))) basis) p').
